@@ -19,7 +19,7 @@ import copy
 import itertools
 
 from . import sym
-from .source import AnalysisError
+from .source import FuncInfo, AnalysisError
 from .sym import NONE, canon, literals
 
 PURE_MODULES = {"np", "numpy", "pd", "pandas", "math", "re", "random", "abc", "sklearn", "ffn", "plt", "pyprind", "codecs", "os"}
@@ -238,7 +238,11 @@ class Evaluator(object):
     st_Assert = st_Pass
 
     def st_FunctionDef(self, s, st, frame):
-        st.locals[s.name] = ("lambda", s.lineno)
+        # a nested helper: inlined at its calls, with the enclosing function's variables visible (closure)
+        if not hasattr(self, "_localfuncs"):
+            self._localfuncs = {}
+        self._localfuncs[(s.lineno, s.name)] = s
+        st.locals[s.name] = ("localfunc", s.lineno, s.name)
 
     def st_Return(self, s, st, frame):
         v = self.ev(s.value, st, frame) if s.value is not None else NONE
@@ -535,9 +539,10 @@ class Evaluator(object):
                 for k_ in [k_ for k_ in st.sub if k_[0] == canon(("dict",))]:
                     del st.sub[k_]
         for lname, sites in loop.appends.items():
-            if len(sites) == 1 and st.locals.get(lname) == ("list",):
-                expr, rel = sites[0]
-                st.locals[lname] = ("comp", "list", expr, it, tuple(rel))
+            if len(sites) == 1 and st.locals.get(lname) == sites[0][3]:
+                expr, rel, kind_, init_ = sites[0]
+                acc = ("comp", "list", expr, it, tuple(rel))
+                st.locals[lname] = acc if init_ == ("list",) else ("+", init_, acc)
             elif lname in st.locals:
                 st.locals[lname] = ("loopval", lid, lname, ("list",))
         return loop
@@ -905,6 +910,13 @@ class Evaluator(object):
             i = int(idx[1])
             if -len(base) + 1 <= i < len(base) - 1:
                 return base[1:][i]
+        if base[0] in ("res", "ite") and sym.is_num(idx) and idx[1] == int(idx[1]) and idx[1] >= 0:
+            # a component of a call's result: the same value whether taken by indexing or by tuple unpacking
+            probe = base
+            while probe[0] == "ite":
+                probe = probe[2]
+            if probe[0] in ("res", "tuple"):
+                return _component(base, int(idx[1]), None)
         return ("sub", base, idx)
 
     def ev_index(self, sl, st, frame):
@@ -1095,9 +1107,17 @@ class Evaluator(object):
                         break
             if fi is not None and name not in BUILTINS:
                 return self.call_function(fi, None, None, args, kwargs, st, frame, node, recv=None)
+            if name == "getattr" and len(args) == 2 and not kwargs and args[1][0] == "str":
+                return self.read_attr(args[0], args[1][1], st, frame, node)  # getattr(x, "name") is x.name
             if name == "dict" and len(args) == 1 and list(kwargs) == ["**"]:
                 return ("dictmerge", args[0], kwargs["**"])  # dict(a, **b): b wins
             return ("call", name, tuple(args), tuple(sorted(kwargs.items())))
+        if t == "localfunc" and (fv[1], fv[2]) in getattr(self, "_localfuncs", {}):
+            node_ = self._localfuncs[(fv[1], fv[2])]
+            lf = FuncInfo(frame.fn.module, frame.fn.cls, node_)
+            lf.prog = getattr(frame.fn, "prog", None)
+            if not any(isinstance(n_, (ast.Nonlocal, ast.Global, ast.Yield, ast.YieldFrom)) for n_ in ast.walk(node_)) and lf.qual not in frame.chain and len(frame.chain) <= self.inline_depth + 2:
+                return self.call_function(lf, None, frame.host, args, kwargs, st, frame, node, recv=None, via_super=True, closure=dict(st.locals))
         if t == "class":
             cname = fv[1]
             ev = Event("call", recv=None, name=cname, args=args, kwargs=kwargs, callee=None, extra="new")
@@ -1182,11 +1202,13 @@ class Evaluator(object):
             kw2 = dict((k, v) for k, v in kwargs.items() if k != "inplace")
             st.locals[src_name] = ("mcall", recv, name, tuple(args), tuple(sorted(kw2.items())))
             return NONE
-        if name == "append" and src_name is not None and frame.loops and len(args) == 1 and isinstance(recv, tuple) and recv and recv[0] in ("list", "listacc"):
+        if name in ("append", "extend") and src_name is not None and frame.loops and len(args) == 1 and isinstance(recv, tuple) and recv and recv[0] in ("list", "listacc"):
             loop = frame.loops[-1]
-            if recv[0] == "list" and len(recv) == 1 and not getattr(loop, "is_while", False):
+            if recv[0] == "list" and (len(recv) == 1 or name == "extend" or src_name in loop.appends or True) and not getattr(loop, "is_while", False) and st.locals.get(src_name) == recv:
+                # res = [..]; for c in xs: res.append(f(c)) / res.extend(g(c))   is   [..] + [f(c) for c in xs] / [m for c in xs for m in g(c)]
                 rel = [l for l in st.guard if l not in loop.guard0 or l in loop.filter]
-                loop.appends.setdefault(src_name, []).append((args[0], tuple(l for l in rel if not (isinstance(l[0], tuple) and l[0] and l[0][0] == "impl"))))
+                item = args[0] if name == "append" else ("comp", "list", ("elem", args[0], len(frame.loops)), args[0], ())
+                loop.appends.setdefault(src_name, []).append((item, tuple(l for l in rel if not (isinstance(l[0], tuple) and l[0] and l[0][0] == "impl")), name, recv))
                 return NONE
         if name in MUTATORS or kwargs.get("inplace") == ("bool", True):
             ev = Event("call", recv=recv, name=name, args=args, kwargs=kwargs, extra="mutate")
@@ -1204,9 +1226,9 @@ class Evaluator(object):
         self.havoc(st, rid, method=name, cands=cands, recv=recv, frame=frame, args=list(args) + list((kwargs or {}).values()))
         return ("res", rid)
 
-    def call_function(self, fi, selfv, host, args, kwargs, st, frame, node, recv=None, via_super=False):
+    def call_function(self, fi, selfv, host, args, kwargs, st, frame, node, recv=None, via_super=False, closure=None):
         can_inline = ((via_super or fi.cls is None or len(frame.chain) <= self.inline_depth) and fi.qual not in frame.chain and fi.qual not in self.no_inline and fi.name not in self.no_inline)
-        ev = Event("call", recv=recv, name=fi.name, args=args, kwargs=kwargs, callee=[fi], inlined=can_inline, extra="super" if via_super else None)
+        ev = Event("call", recv=recv, name=fi.name, args=args, kwargs=kwargs, callee=[fi], inlined=can_inline, extra="super" if (via_super and closure is None) else None)
         self.emit(ev, node, st, frame)
         if not can_inline:
             rid = next(self._ids)
@@ -1251,7 +1273,11 @@ class Evaluator(object):
             else:
                 binds[fi.kwarg] = ("kwargs", tuple(sorted((("str", k), v) for k, v in extra.items())))
         inner = State()
-        inner.locals = binds
+        if closure is not None:
+            inner.locals = dict(closure)
+            inner.locals.update(binds)
+        else:
+            inner.locals = binds
         inner.heap = st.heap
         inner.sub = st.sub
         inner.guard = list(st.guard)
@@ -1640,7 +1666,7 @@ def _contradictory(guard):
 
 def _component(v, i, n):
     t = v[0]
-    if t in ("tuple", "list") and len(v) - 1 == n:
+    if t in ("tuple", "list") and (len(v) - 1 == n or (n is None and i < len(v) - 1)):
         return v[1 + i]
     if t == "ite":
         return _ite(v[1], _component(v[2], i, n), _component(v[3], i, n))
